@@ -54,14 +54,20 @@ def timesFromDates (date : List (Option Int)) (ref : Option Int) : Except Err (L
     | none => .error .type
     | some r => .ok (date.map fun d => d.map fun x => ((x - r : Int) : Rat))
 
-/-- a freshly constructed image on root array `rid` (`Image.__init__`): `T` time slabs -/
-def mkRoot (rid : Nat) (cs : CS) (series scalar : Bool) (T : Nat) (time : Option (List (Option Rat)))
-    (date : List (Option Int)) : Except Err Img := do
-  let ref := date.headD none
+/-- a freshly constructed image on root array `rid` (`Image.__init__`): `T` time slabs; `refArg` is the
+`reference_date` keyword (`none`: not given → the first date) -/
+def mkRootR (rid : Nat) (cs : CS) (series scalar : Bool) (T : Nat) (time : Option (List (Option Rat)))
+    (date : List (Option Int)) (refArg : Option (Option Int)) : Except Err Img := do
+  let ref := match refArg with
+    | some r => r
+    | none => date.headD none
   let tm ← match time with
     | some l => pure l
     | none => timesFromDates date ref
   pure ⟨cs, series, scalar, (List.range T).map fun t => ⟨rid, t, cs.shape.map List.range⟩, tm, date, ref⟩
+
+def mkRoot (rid : Nat) (cs : CS) (series scalar : Bool) (T : Nat) (time : Option (List (Option Rat)))
+    (date : List (Option Int)) : Except Err Img := mkRootR rid cs series scalar T time date none
 
 /-- `Image.subregion(tuple of slices)` -/
 def Img.subSlices (im : Img) (sls : List PySlice) : Except Err Img := do
@@ -135,13 +141,16 @@ def Img.timeInterval (im : Img) (s : PySlice) : Except Err Img := do
 def appendChecks (im other : Img) : Except Err Unit := do
   if im.cs.dim ≠ other.cs.dim then throw .assertion
   if im.scalar ≠ other.scalar then throw .assertion
+  -- `np.allclose(num_voxels, …)`: for extents below 1e5 the tolerance cannot bridge two different integers; modelled as equality
   if im.cs.shape ≠ other.cs.shape then throw .assertion
   if !anyNone im.date && !anyNone other.date then
     match im.date.getLast?, other.date.head? with
     | some (some a), some (some b) => if ¬ a < b then throw .assertion
     | _, _ => pure ()
-  if im.cs.dims ≠ other.cs.dims then throw .assertion
-  if im.cs.origin ≠ other.cs.origin then throw .assertion
+  -- `assert np.allclose(self.dimensions, image.dimensions)`, `assert np.allclose(self.origin, image.origin)`:
+  -- numpy's tolerance (|a − b| ≤ 1e-8 + 1e-5·|b|), not equality; the receiver's geometry is kept
+  if !(← allcloseL npClose im.cs.dims other.cs.dims) then throw .assertion
+  if !(← allcloseL npClose im.cs.origin other.cs.origin) then throw .assertion
 
 /-- the relative times of the appended series (`Image.append` + `set_time`) -/
 def appendTimes (im other : Img) (offset : Option Rat) : Except Err (List (Option Rat)) :=
@@ -188,5 +197,28 @@ def Img.runOk (im : Img) : List Step → Option Img
 
 /-- run a program, errors as data (driver) -/
 def Img.run (im : Img) (ss : List Step) : Except Err Img := ss.foldlM Img.step im
+
+end Darsia.Im
+
+namespace Darsia.Im
+open Darsia
+
+/-- the voxel offset a step adds to the placement (normalised slice starts; zero for the time steps) -/
+def Img.stepStarts (im : Img) : Step → Except Err (List Nat)
+  | .sub sls => .ok ((List.zipWith sliceIdx im.cs.shape sls).map (·.1))
+  | .subVox pts => (boxSlices im.cs.shape pts).map fun sls => (List.zipWith sliceIdx im.cs.shape sls).map (·.1)
+  | .subCoord pts => do
+    let vox ← im.cs.voxelB pts
+    let sls ← boxSlices im.cs.shape vox
+    pure ((List.zipWith sliceIdx im.cs.shape sls).map (·.1))
+  | .tslice _ => .ok (List.replicate im.cs.dim.toNat 0)
+  | .tinterval _ => .ok (List.replicate im.cs.dim.toNat 0)
+
+/-- run a program and accumulate the composed voxel offset w.r.t. the image the program started from -/
+def Img.runOff (im : Img) (off : List Nat) : List Step → Option (Img × List Nat)
+  | [] => some (im, off)
+  | s :: ss => match im.step s, im.stepStarts s with
+    | .ok im', .ok st => if im'.nonempty then im'.runOff (List.zipWith (· + ·) off st) ss else none
+    | _, _ => none
 
 end Darsia.Im
